@@ -353,8 +353,17 @@ def check_kernel_1d(ctx, rule, fi, prefix="kernel1d"):
             good["over"].append(f"overflow = sum(w[{_b(sb[1])}:]) at the last bin")
         else:
             problems["over"].append(f"`{txt}`: overflow must be the weight of {{d > R_last}}")
+    sums_with_args = [U(c)[:60] for c in calls_in(loop) if isinstance(c.func, ast.Attribute) and c.func.attr == "sum"
+                      and (c.args or c.keywords) and "weights" in U(c.func.value)]
+    if sums_with_args:
+        problems["interior"].append(f"the weight reduction {sums_with_args[0]} takes arguments (dtype= / axis=): the per-bin sum must be accumulated "
+                                    "in the weights' own precision and only then stored")
     nan_cond = [f for f in facts["nan"] if f[0] == "cond"]
     nan_store = {f[1] for f in facts["nan"] if f[0] == "store"}
+    stale = [f[1] for f in nan_cond if f[1] not in (f"_bin_utils.is_consecutive({bins_name})", f"is_consecutive({bins_name})")]
+    if stale:
+        problems["nan"].append(f"the gap test is `{stale[0]}`, not is_consecutive of the very bins array that was swept "
+                               "(a cached verdict of the binning object can be stale)")
     if not nan_cond or nan_store != {"underflow", "overflow"} or any(f[0] == "wrong-branch" for f in facts["nan"]):
         problems["nan"].append("under/overflow are not both reset to NaN under the not-is_consecutive test")
     else:
